@@ -162,6 +162,32 @@ func runSideBySide(streams [][]byte, seed uint64) [][]handler.Message {
 	return out
 }
 
+// execC03Second: two streams through one handler, one after the other; k.Expect is
+// the expectation for the second, first the one for the first (nil on replay).
+func execC03Second(c *child.Ctx, k streamCase, cj []byte, first []expSeg) {
+	h := handler.New(fixedStart, slog.LevelInfo)
+	m1 := streamThrough(h, unhex(k.Input))
+	if first != nil {
+		if why := compareSeq(m1, first); why != "" {
+			c.Violate("sequence-mismatch", "first of two streams through one handler: "+why, cj)
+			return
+		}
+	}
+	m2 := streamThrough(h, unhex(k.Second))
+	if why := compareSeq(m2, k.Expect); why != "" {
+		c.Violate("sequence-mismatch", fmt.Sprintf("second stream through the same handler (the first, %d bytes, ended with %s): %s", len(unhex(k.Input)), describeMsgs(m1[max0(len(m1)-1):], 1), why), cj)
+		return
+	}
+	c.Count("second_streams_on_one_handler", 1)
+}
+
+func max0(v int) int {
+	if v < 0 {
+		return 0
+	}
+	return v
+}
+
 // execLiveCase: a producer that waits until the handler has drained the input queue
 // (it is idle, blocked on an empty queue) at each of the given offsets and then sends
 // on at full speed into a queue of capacity InCap.
@@ -668,6 +694,51 @@ func monC01(c *child.Ctx, replay json.RawMessage) {
 		cj := c.BeginV(k)
 		execC01Reused(c, r, f.Bytes, cj)
 	}
+	// very long runs without a start byte (text, zeros, another protocol), around the
+	// sizes at which buffers are typically capped, between frames
+	if c.Batch == 2 || c.Thorough() && c.Batch%8 == 2 {
+		for _, jl := range []int{4096, 4097, 65535, 65536, 65537, 70000, 131073} {
+			junk := gen.NoD3(r.Bytes(jl))
+			if jl%2 == 0 {
+				const sentence = "$GPGSA,A,3,04,05,,09,12,,,24,,,,,2.5,1.3,2.1*39\r\n"
+				for j := range junk {
+					junk[j] = sentence[j%len(sentence)]
+				}
+			}
+			in := append(append(append([]byte(nil), gen.RandFrame(r).Bytes...), junk...), gen.RandFrame(r).Bytes...)
+			k := streamCase{Input: hexs(in), Note: fmt.Sprintf("%d bytes without a start byte between two frames", jl)}
+			cj := c.BeginV(k)
+			execC01Stream(c, k, cj)
+			c.Count("long_runs_without_a_start_byte", 1)
+		}
+	}
+	// a consumer that falls dozens of messages behind (it is held up for a moment while
+	// the source keeps sending frames with line ends between them)
+	nBehind := c.Share(c.Pick(24, 480))
+	for i := 0; i < nBehind; i++ {
+		var in []byte
+		for j := r.Range(60, 120); j > 0; j-- {
+			f := gen.RandFrame(r)
+			for len(f.Bytes) > 60 {
+				f = gen.RandFrame(r)
+			}
+			in = append(in, f.Bytes...)
+			if r.Chance(2, 3) {
+				in = append(in, '\r', '\n')
+			}
+		}
+		k := streamCase{Input: hexs(in), StallMs: 1, OnceStallMs: int64(r.Range(50, 150)), OnceAt: r.Range(0, 3), OutCap: []int{0, 1, 4}[r.Intn(3)], Note: "consumer held up for a moment early in a long stream"}
+		cj := c.BeginV(k)
+		msgs := runTimedX(in, nil, 0, k.OnceAt, time.Duration(k.OnceStallMs)*time.Millisecond, k.OutCap)
+		for j := range msgs {
+			if why := checkTyped(&msgs[j]); why != "" {
+				c.Violate("typed-message-not-a-frame", "stream handler whose consumer fell behind: "+why, cj)
+				break
+			}
+		}
+		c.Count("streams_with_a_consumer_that_fell_behind", 1)
+		c.Eval(ref.Hash64(cj), true)
+	}
 	// long sessions in which most frames are damaged: one handler, thousands of CRC
 	// failures, and still nothing but valid frames is ever typed
 	if c.Batch < 2 || c.Thorough() {
@@ -828,6 +899,10 @@ func monC03(c *child.Ctx, replay json.RawMessage) {
 			}
 			return
 		}
+		if k.Second != "" {
+			execC03Second(c, k, replay, nil)
+			return
+		}
 		if k.StallMs > 0 {
 			execTimedCase(c, k, replay, "sequence-mismatch")
 			return
@@ -886,6 +961,17 @@ func monC03(c *child.Ctx, replay json.RawMessage) {
 	}
 	if ob := c.NBatch - 1 - c.Batch; ob < len(onceStalls(c)) {
 		st := gen.Stream{gen.RandFrame(r), gen.Junk(r), gen.RandFrame(r), gen.RandFrame(r), gen.RandFrame(r), gen.Junk(r)}
+		// ... and dozens of messages pile up behind the consumer meanwhile
+		for j := r.Range(40, 80); j > 0; j-- {
+			f := gen.RandFrame(r)
+			for len(f.Bytes) > 60 {
+				f = gen.RandFrame(r)
+			}
+			st = append(st, f)
+			if r.Chance(2, 3) {
+				st = append(st, gen.Seg{Kind: "junk", Type: -1, Bytes: []byte("\r\n")})
+			}
+		}
 		execHeldUpOnce(c, st, st.ExpectedClean(), onceStalls(c)[ob], r.Intn(3), []int{0, 1, 2}[r.Intn(3)], "sequence-mismatch")
 		// and the source falls silent once, for as long, in the middle of a frame
 		off := len(st[0].Bytes) + len(st[1].Bytes)
@@ -894,6 +980,52 @@ func monC03(c *child.Ctx, replay json.RawMessage) {
 		cj := c.BeginV(k)
 		execTimedCase(c, k, cj, "sequence-mismatch")
 		c.Eval(ref.Hash64(st.Bytes(), []byte(k.Note)), true)
+	}
+	// a truncated last frame whose payload holds start bytes followed by small values
+	// (what a leader looks like), or a whole valid frame: cut at every position, it is
+	// one piece of other data
+	nemb := c.Share(c.Pick(80, 1600))
+	for i := 0; i < nemb; i++ {
+		inner := gen.RandFrame(r)
+		for len(inner.Bytes) > 40 {
+			inner = gen.RandFrame(r)
+		}
+		var pl []byte
+		pl = append(pl, byte(r.Intn(64)), byte(r.Intn(256)))
+		switch i % 3 {
+		case 0:
+			pl = append(pl, inner.Bytes...)
+		case 1:
+			pl = append(pl, 0xd3, byte(r.Intn(4)), byte(r.Intn(256)), 0xd3, 0x00, byte(1+r.Intn(20)))
+		default:
+			pl = append(pl, gen.NoD3(r.Bytes(r.Range(1, 20)))...)
+			pl = append(pl, 0xd3, 0x00)
+		}
+		pl = append(pl, r.Bytes(r.Range(2, 30))...)
+		last := ref.Frame(pl)
+		base := gen.CleanStream(r, gen.CleanOpts{MinFrames: 1, MaxFrames: 3, SmallFrames: true})
+		for cut := 1; cut < len(last); cut++ {
+			t := append(gen.Stream(nil), base...)
+			t = append(t, gen.Seg{Kind: "trunc", Type: -1, Bytes: last[:cut]})
+			run(t, fmt.Sprintf("last frame (with start bytes inside its payload) truncated after %d of %d bytes", cut, len(last)))
+		}
+		c.Count("truncation_positions_swept", int64(len(last)-1))
+	}
+	// the same handler given a second stream after the first one ended (complete, cut
+	// off inside a frame, or in other data)
+	nsec := c.Share(c.Pick(2400, 48000))
+	for i := 0; i < nsec && c.NViolations() == 0; i++ {
+		s1 := gen.CleanStream(r, gen.CleanOpts{MinFrames: 1, MaxFrames: 4, TruncTail: i%2 == 0})
+		s2 := gen.CleanStream(r, gen.CleanOpts{MinFrames: 1, MaxFrames: 4, TruncTail: true})
+		k := streamCase{Input: hexs(s1.Bytes()), Second: hexs(s2.Bytes()), Expect: toExp(s2.ExpectedClean())}
+		var cj []byte
+		if i%64 == 0 {
+			cj = c.BeginV(k)
+		} else {
+			cj, _ = json.Marshal(k)
+		}
+		execC03Second(c, k, cj, toExp(s1.ExpectedClean()))
+		c.EvalN(1)
 	}
 	// a live source with a deep input queue: the bytes arrive in bursts that begin at
 	// segment boundaries (after other data, before a frame) while the handler is idle
@@ -1711,6 +1843,19 @@ func monC02(c *child.Ctx, replay json.RawMessage) {
 			b := append(gen.NoD3(r.Bytes(jl)), gen.RandFrame(r).Bytes...)
 			addInput(b, true)
 		}
+		// streams that end 0..6 bytes after a leader with a zero length field, alone and after a frame
+		{
+			pre := gen.RandFrame(r).Bytes
+			for _, b1 := range []byte{0x00, 0x04, 0xfc} {
+				for k := 0; k <= 6; k++ {
+					for _, tail := range [][]byte{r.Bytes(k), make([]byte, k)} {
+						in := append([]byte{0xd3, b1, 0x00}, tail...)
+						addInput(append([]byte(nil), in...), true)
+						addInput(append(append([]byte(nil), pre...), in...), true)
+					}
+				}
+			}
+		}
 		f := gen.RandFrame(r)
 		for len(f.Bytes) > 40 || !gen.SafeMSMPayload(f.Type, len(f.Bytes)-6) {
 			f = gen.RandFrame(r)
@@ -1806,6 +1951,22 @@ func monC02(c *child.Ctx, replay json.RawMessage) {
 		cj := c.BeginV(k)
 		execC02Timed(c, k, cj)
 		c.Count("held_up_once_runs", 1)
+		c.Eval(ref.Hash64(cj), true)
+	}
+	// the source falls silent once, for seconds, well inside a long frame
+	if ob := c.Batch/2 - 1; c.Batch%2 == 0 && ob >= 0 && ob < len(onceStalls(c)) {
+		var f gen.Seg
+		for {
+			f = gen.RandFrame(r)
+			if len(f.Bytes) >= 60 && len(f.Bytes) <= 400 {
+				break
+			}
+		}
+		head := gen.RandFrame(r).Bytes
+		in := append(append(append([]byte(nil), head...), f.Bytes...), gen.RandFrame(r).Bytes...)
+		k := streamCase{Input: hexs(in), StallMs: onceStalls(c)[ob].Milliseconds(), PauseAt: []int{len(head) + r.Range(20, len(f.Bytes)-5)}}
+		cj := c.BeginV(k)
+		execC02Timed(c, k, cj)
 		c.Eval(ref.Hash64(cj), true)
 	}
 	// several handlers at the same time, each on its own hostile stream
